@@ -3,8 +3,8 @@
 # change applied (PYTHONPATH points the harness at it; /repo itself is never touched), from a scratch
 # copy of /verif so that evidence / replays of the real tree are not overwritten.
 # usage: tools/eval_seeded.sh [ids...]     (default: every directory under /verif/seeded)
-V=/var/tmp/verif-mut
-WT=/var/tmp/repo-mut
+V=/var/tmp/verif-mut${EVAL_TAG}
+WT=/var/tmp/repo-mut${EVAL_TAG}
 rm -rf $V; cp -r /verif $V
 git -C /repo worktree remove --force $WT 2>/dev/null
 git -C /repo worktree add -q --detach $WT HEAD || exit 2
